@@ -2,6 +2,7 @@
 use crate::engine::{Ctx, Report};
 use serde_json::Value;
 
+pub mod c10;
 pub mod c13;
 
 pub struct Prop {
@@ -13,6 +14,7 @@ pub struct Prop {
 
 pub fn all() -> Vec<Prop> {
     vec![
+        Prop { id: "C10", run: c10::run, replay: c10::replay },
         Prop { id: "C13", run: c13::run, replay: c13::replay },
     ]
 }
